@@ -41,6 +41,9 @@ pub struct Case {
     pub faults: Vec<Fault>,
     /// receiver forgets the group at these times (deciseconds); true = answer REG_ERR instead of REG_NGP
     pub forgets: Vec<(u16, bool)>,
+    /// run with the stall guard switched off (`--no-stall-deselect`)
+    #[serde(default)]
+    pub guard_off: bool,
 }
 
 #[derive(Clone, Copy, PartialEq, Eq)]
@@ -90,8 +93,9 @@ fn strategy_h(max_horizon_s: u16, long: bool) -> impl Strategy<Value = Case> {
             any::<u32>(),
             vec(fault, if long { 1..3 } else { 0..6 }),
             vec((0u16..(max_horizon_s * 10), prop::bool::weighted(0.3)), if long { 0..1 } else { 0..2 }),
+            prop::bool::weighted(0.3),
         )
-            .prop_map(move |(timeout, classic, horizon_s, burst_gap_ms, burst_n, rtt_ms, jit, faults, forgets)| Case {
+            .prop_map(move |(timeout, classic, horizon_s, burst_gap_ms, burst_n, rtt_ms, jit, faults, forgets, guard_off)| Case {
                 n_links: n,
                 timeout,
                 classic,
@@ -102,6 +106,7 @@ fn strategy_h(max_horizon_s: u16, long: bool) -> impl Strategy<Value = Case> {
                 jit,
                 faults,
                 forgets,
+                guard_off,
             })
     })
 }
@@ -232,6 +237,7 @@ pub fn check(case: &Case, obs: &mut Obs, which: Which, ctx: &Ctx) -> CheckResult
     let cfg = ConfigSnapshot {
         mode: if case.classic { SchedulingMode::Classic } else { SchedulingMode::Enhanced },
         conn_timeout_ms: timeout,
+        stall_deselect: !case.guard_off,
         ..ConfigSnapshot::default()
     };
     let mut sh = Shell::new(&addrs, cfg);
@@ -316,7 +322,9 @@ pub fn check(case: &Case, obs: &mut Obs, which: Which, ctx: &Ctx) -> CheckResult
                 let torn = $conn_before[i] && !c.connected;
                 if torn {
                     // an established link was torn down in this step
-                    let lt = c.verif_conn_timeout_ms();
+                    // the configured timeout reaches a link with the first routing decision taken under it;
+                    // before any decision the link holds the built-in default
+                    let lt = if decisions > 0 { timeout } else { c.verif_conn_timeout_ms() };
                     let silent_for = m.last_heard.map(|h| now.saturating_sub(h));
                     let ok = broken[i] || m.reg_err_since_up || silent_for.is_none_or(|s| s >= lt);
                     if which == Which::C08 {
